@@ -221,6 +221,23 @@ impl From<DynamicTable> for Encoder {
     }
 }
 
+#[cfg(all(h3_verif, not(test)))]
+impl From<DynamicTable> for Encoder {
+    fn from(table: DynamicTable) -> Encoder {
+        Encoder { table }
+    }
+}
+
+#[cfg(h3_verif)]
+impl Encoder {
+    pub fn verif_table(&self) -> &DynamicTable {
+        &self.table
+    }
+    pub fn verif_table_mut(&mut self) -> &mut DynamicTable {
+        &mut self.table
+    }
+}
+
 // Action to apply to the encoder table, given an instruction received from the decoder.
 #[derive(Debug, PartialEq)]
 enum Action {
